@@ -121,8 +121,9 @@ PLANS = {
     ),
     'C01': dict(
         module='RucteProps.C01',
-        extra_modules=['RucteProps.C01Nodes', 'RucteProps.C15Tree', 'RucteProps.C13Header'],
-        theorems=['Ructe.C01.textLit_ascii', 'Ructe.C01.textLit_nonascii', 'Ructe.C01.lower_text', 'Ructe.C01.render_text', 'Ructe.C01.text_node_sound', 'Ructe.C01.comment_node_sound', 'Ructe.C01.node_consumes', 'Ructe.C01.text_complete', 'Ructe.C01.escapes_complete', 'Ructe.C15Tree.body_complete', 'Ructe.C13Header.template_complete'],
+        extra_modules=['RucteProps.C01Nodes', 'RucteProps.C01Body', 'RucteProps.C15Tree', 'RucteProps.C13Header'],
+        theorems=['Ructe.C01.textLit_ascii', 'Ructe.C01.textLit_nonascii', 'Ructe.C01.lower_text', 'Ructe.C01.render_text', 'Ructe.C01.text_node_sound', 'Ructe.C01.comment_node_sound', 'Ructe.C01.node_consumes', 'Ructe.C01.text_complete', 'Ructe.C01.escapes_complete', 'Ructe.C15Tree.body_complete', 'Ructe.C13Header.template_complete',
+                  'Ructe.C01.body_accounting', 'Ructe.C01.literal_bytes_accounted', 'Ructe.C01.block_accounting', 'Ructe.C01.part_kinds', 'Ructe.C01.node_head', 'Ructe.C01.manyTillGo_chain'],
         runs=[dict(suite='parse', mix='examples,text,structured', n=dict(quick=4000, thorough=80000), projection='body',
                    tags=['C01'], literal_oracle=True),
               dict(suite='parse', srcgen=dict(quick=600, thorough=6000), mix='srcgen', n=1, projection='body', tags=['C01'], literal_oracle=True),
@@ -130,7 +131,7 @@ PLANS = {
         correspondence='syntax tree of the parse and the body of the generated code vs Ructe.template / Ructe.writeRust; every printed text literal is decoded by the Lean model of rustc\'s literal lexer and compared with the text node',
         rule='every ASCII code point except @{} alone / at the start / middle / end of a run, at 7 nesting positions; random text over quotes, backslashes, CR/LF, NUL, controls, multi-byte scalars, escape look-alikes, the three escapes, comments; structured templates with their documented tree; non-trivial = distinct accepted syntax trees',
         assumptions=['rustc lexes literals as the Rust Reference says (modelled by decodeStrLit / decodeByteStrLit; rustc itself is the judge in the e2e runs)'],
-        level_text='Proved for all inputs: textLit_ascii / textLit_nonascii (the printed literal lexes to exactly the text: every byte string resp. every valid UTF-8 text, every uniEsc), text_node_sound / comment_node_sound / node_consumes (what a text or comment node accounts for in the source), text_complete / escapes_complete, lower_text, render_text; with C11.template_accepts_whole every byte is accounted for. In the other direction C13Header.template_complete / C15Tree.body_complete: every well-formed source (header + body tree, any nesting) parses to exactly its intended tree, text nodes and escapes at every nesting position byte for byte, comments as comment nodes, and the only dropped body text is the layout after the declaration (hypothesis StopsLayout on the body, with the counterexample that forces it). Tie: differential run on tree and code, printed literals decoded by the model lexer, rustc end-to-end rendering.',
+        level_text='Proved for all inputs: textLit_ascii / textLit_nonascii (the printed literal lexes to exactly the text: every byte string resp. every valid UTF-8 text, every uniEsc), text_node_sound / comment_node_sound / node_consumes (what a text or comment node accounts for in the source), text_complete / escapes_complete, lower_text, render_text; with C11.template_accepts_whole every byte is accounted for: C01Body proves this for EVERY accepted template, with no well-formedness hypothesis: body_accounting (the input is the header followed by the spans of the body nodes, in order, without gaps or overlaps), literal_bytes_accounted (every part is literal text whose node carries exactly the bytes of the span, one of the three escapes, or an @-construct whose span starts with @ - nothing dropped, duplicated or reordered), block_accounting (the same inside every block body and match arm). In the other direction C13Header.template_complete / C15Tree.body_complete: every well-formed source (header + body tree, any nesting) parses to exactly its intended tree, text nodes and escapes at every nesting position byte for byte, comments as comment nodes, and the only dropped body text is the layout after the declaration (hypothesis StopsLayout on the body, with the counterexample that forces it). Tie: differential run on tree and code, printed literals decoded by the model lexer, rustc end-to-end rendering.',
         level_note='Trusted: Lean kernel; hand-written model of the parser/emitter and of Rust literal syntax.',
         design_ref='DESIGN.md §6 C01',
     ),
@@ -316,8 +317,8 @@ PLANS = {
     ),
     'C03': dict(
         module='RucteProps.C03',
-        extra_modules=['RucteProps.C15Tree'],
-        theorems=['Ructe.C15Tree.no_swallow_after_block', 'Ructe.C15Tree.block_complete', 'Ructe.C03.render_if_taken', 'Ructe.C03.render_else_if', 'Ructe.C03.else_if_flattening', 'Ructe.C03.render_for', 'Ructe.C03.render_match', 'Ructe.C03.render_seq', 'Ructe.C03.render_fuel_mono'],
+        extra_modules=['RucteProps.C15Tree', 'RucteProps.C01Body'],
+        theorems=['Ructe.C15Tree.no_swallow_after_block', 'Ructe.C15Tree.block_complete', 'Ructe.C01.block_accounting', 'Ructe.C03.render_if_taken', 'Ructe.C03.render_else_if', 'Ructe.C03.else_if_flattening', 'Ructe.C03.render_for', 'Ructe.C03.render_match', 'Ructe.C03.render_seq', 'Ructe.C03.render_fuel_mono'],
         runs=[dict(suite='e2e', n=dict(quick=800, thorough=12000), projection='identity', tags=['C03']),
               dict(suite='parse', mix='structured,examples', n=dict(quick=1500, thorough=25000), projection='body', tags=['C03'])],
         correspondence='bytes written by the rustc-compiled generated functions vs Ructe.renderL (specification semantics under the mini-Rust Sem) of the model\'s parse; syntax tree and body code of structured templates vs the model',
